@@ -71,54 +71,69 @@ func runM0(c *verdict.Ctx, idx int, tmp string) {
 	base := time.Date(2024, 1, 1, 0, 0, 0, 0, time.UTC)
 	h, round := int64(1+r.Intn(3)), int32(0)
 	inc := 0
+	var forced []req
 	n := 40 + r.Intn(80)
 	for k := 0; k < n; k++ {
-		// walk (h, r) mostly forwards, sometimes backwards (regressions must be refused, never conflict)
-		switch x := r.Intn(20); {
-		case x < 2:
-			h++
-			round = 0
-		case x < 5:
-			round++
-		case x == 5 && round > 0:
-			round--
-		case x == 6 && h > 1:
-			h--
-		}
-		q := req{H: h, R: round, Block: r.Intn(3), POL: -1, TsMs: int64(k*10 + r.Intn(3))}
-		switch r.Intn(3) {
-		case 0:
-			q.Kind = "proposal"
-			if q.Block == 0 {
-				q.Block = 1
+		var q req
+		if len(forced) > 0 {
+			q, forced = forced[0], forced[1:]
+		} else {
+			// walk (h, r) mostly forwards, sometimes backwards (regressions must be refused, never conflict)
+			switch x := r.Intn(20); {
+			case x < 2:
+				h++
+				round = 0
+			case x < 5:
+				round++
+			case x == 5 && round > 0:
+				round--
+			case x == 6 && h > 1:
+				h--
 			}
-			if r.Intn(3) == 0 && round > 0 {
-				q.POL = int32(r.Intn(int(round)))
+			q = req{H: h, R: round, Block: r.Intn(3), POL: -1, TsMs: int64(k*10 + r.Intn(3))}
+			switch r.Intn(3) {
+			case 0:
+				q.Kind = "proposal"
+				if q.Block == 0 {
+					q.Block = 1
+				}
+				if r.Intn(3) == 0 && round > 0 {
+					q.POL = int32(r.Intn(int(round)))
+				}
+			case 1:
+				q.Kind = "prevote"
+			default:
+				q.Kind = "precommit"
 			}
-		case 1:
-			q.Kind = "prevote"
-		default:
-			q.Kind = "precommit"
-		}
-		if r.Intn(4) == 0 && len(reqs) > 0 {
-			// repeat an earlier request exactly, with only the timestamp changed, or with another block
-			prev := reqs[r.Intn(len(reqs))]
-			if prev.Kind != "" {
-				q = prev
-				q.Op = ""
-				switch r.Intn(3) {
-				case 1:
-					q.TsMs += int64(1 + r.Intn(1000))
-				case 2:
-					q.Block = (q.Block % 2) + 1
+			if r.Intn(4) == 0 && len(reqs) > 0 {
+				// repeat an earlier request exactly, with only the timestamp changed, or with another block
+				prev := reqs[r.Intn(len(reqs))]
+				if prev.Kind != "" {
+					q = prev
+					q.Op = ""
+					switch r.Intn(3) {
+					case 1:
+						q.TsMs += int64(1 + r.Intn(1000))
+					case 2:
+						q.Block = (q.Block % 2) + 1
+					}
 				}
 			}
-		}
-		op := r.Intn(12)
-		if op == 0 {
-			q.Op = "restart"
-		} else if op == 1 {
-			q.Op = "crash-before-rename"
+			op := r.Intn(12)
+			if op == 0 {
+				q.Op = "restart"
+			} else if op == 1 {
+				q.Op = "crash-before-rename"
+			} else if op == 2 {
+				// the sign-state write itself fails (its directory is gone for the duration of the call): whatever the
+				// signer does then (die, or report an error and live on), the caller retries the same request, the signer
+				// is restarted, and another block is requested at the same height/round/step
+				q.Op = "write-fails"
+				retry, other := q, q
+				retry.Op, other.Op = "restart", ""
+				other.Block = (q.Block % 2) + 1
+				forced = append(forced, retry, other)
+			}
 		}
 		reqs = append(reqs, q)
 		ts := base.Add(time.Duration(q.TsMs) * time.Millisecond)
@@ -131,11 +146,29 @@ func runM0(c *verdict.Ctx, idx int, tmp string) {
 				}
 			})
 		}
+		if q.Op == "write-fails" {
+			if err := os.Rename(dir, dir+".off"); err != nil {
+				c.HarnessError("m0: %v", err)
+				return
+			}
+			c.Count("m0.sign_state_write_failures_injected", 1)
+		}
 		func() {
 			defer func() {
+				if q.Op == "write-fails" {
+					if err := os.Rename(dir+".off", dir); err != nil {
+						c.HarnessError("m0: %v", err)
+					}
+				}
 				if rec := recover(); rec != nil {
 					if _, ok := rec.(crashNow); ok {
 						crashed = true
+						return
+					}
+					if q.Op == "write-fails" {
+						// FilePV.save panics on write errors: the signer process dies, nothing was released
+						crashed = true
+						c.Count("m0.signer_died_on_write_failure", 1)
 						return
 					}
 					// FilePV.save panics on write errors; anything else is unexpected
@@ -184,7 +217,7 @@ func runM0(c *verdict.Ctx, idx int, tmp string) {
 			verifhook.Handle("tempfile.written", nil)
 			crashMu.Unlock()
 		}
-		if crashed {
+		if crashed && q.Op == "crash-before-rename" {
 			c.Count("m0.crash_before_rename", 1)
 		}
 		if crashed || q.Op == "restart" {
@@ -365,7 +398,7 @@ func runPlanM1(c *verdict.Ctx, r *crash.Runner, template string, k int, first st
 
 func Run(c *verdict.Ctx) int {
 	c.Level = "fault_enumeration"
-	c.Rule = "M0: one case = a seeded sequence of 40-120 signing requests to a real FilePV on disk (same HRS with identical data / only the timestamp changed / another block or POL round; height, round and step regressions) interleaved with reloads from the files and crashes at the point between writing the sign-state temp file and renaming it; M1: one case = a crash plan for a whole node: a first-level crash point from the enumeration of a census run over two heights (every signer call entry and exit, every sign-state temp-file point, every WAL fsync, the fail.Fail points), a WAL tail treatment (kept / cut to the synced size / cut at a random byte / garbled), 0-3 further crashes during replay, a final clean run. The union of the signer journals of all incarnations is audited; non-trivial = a crash point was reached (M1) or more than 3 signatures were released (M0)"
+	c.Rule = "M0: one case = a seeded sequence of 40-120 signing requests to a real FilePV on disk (same HRS with identical data / only the timestamp changed / another block or POL round; height, round and step regressions) interleaved with reloads from the files, crashes at the point between writing the sign-state temp file and renaming it, and failing sign-state writes (directory gone during the call) followed by a retry of the same request, a restart and a request for another block at the same height/round/step; M1: one case = a crash plan for a whole node: a first-level crash point from the enumeration of a census run over two heights (every signer call entry and exit, every sign-state temp-file point, every WAL fsync, the fail.Fail points), a WAL tail treatment (kept / cut to the synced size / cut at a random byte / garbled), 0-3 further crashes during replay, a final clean run. The union of the signer journals of all incarnations is audited; non-trivial = a crash point was reached (M1) or more than 3 signatures were released (M0)"
 	c.Assume("the signer journal is written (and fsynced) after FilePV returned and before the caller gets the signature; a journaled signature counts as released",
 		"process-crash semantics plus explicit surgery on the unsynced WAL tail; reordering between the sign-state file and the WAL on power loss is not modelled", "single-validator node in M1 (multi-round histories come from M0)")
 	tmp := verdict.TmpDir("c04-")
